@@ -30,6 +30,9 @@ MaxDepth == 10
 Abs(v) == IF v < 0 THEN -v ELSE v
 Sgn(v) == IF v < 0 THEN -1 ELSE 1
 IsWhole(v) == v % Unit = 0
+\* n / d (d > 0) rounded to the nearest integer, halves away from zero: the rounding of 16.16
+\* arithmetic (FreeType's FT_MulFix / FT_DivFix round the same way); no intermediate exceeds |n|
+RoundHA(n, d) == LET q == Abs(n) \div d  r == Abs(n) % d IN Sgn(n) * (q + (IF 2 * r >= d THEN 1 ELSE 0))
 
 \* ------------------------------------------------------------------ tokens
 Num(n)       == [op |-> "num", v |-> n, mask |-> <<>>]
@@ -53,6 +56,7 @@ M0 == [stack |-> <<>>, path |-> <<>>, hs |-> <<>>, vs |-> <<>>,
        x |-> 0, y |-> 0, moved |-> FALSE,
        tdef |-> {}, trans |-> [i \in 0..31 |-> 0],
        indet |-> FALSE,      \* a transient cell was read before this charstring wrote it
+       inex |-> FALSE,       \* the stack holds a quotient that is not a 16.16 number (see div)
        st |-> "run"]         \* run | done | error | unmodelled
 
 Err(m)  == [m EXCEPT !.st = "error"]
@@ -153,13 +157,24 @@ DoArith(m, op) ==
        [] op = "neg"  -> S(Append(r1, -a))
        [] op = "add"  -> S(Append(r2, b + a))
        [] op = "sub"  -> S(Append(r2, b - a))
-       [] op = "mul"  -> IF IsWhole(a) THEN S(Append(r2, (a \div Unit) * b))
+       \* mul: the product of two 16.16 numbers, rounded to 16.16 (halves away from zero).  Modelled
+       \* where the 32-bit integers of TLC can hold a * b, or one factor is whole (exact).
+       [] op = "mul"  -> IF a = 0 \/ b = 0 THEN S(Append(r2, 0))
+                         ELSE IF Abs(b) <= 2147483647 \div Abs(a) THEN S(Append(r2, RoundHA(a * b, Unit)))
+                         ELSE IF IsWhole(a) THEN S(Append(r2, (a \div Unit) * b))
                          ELSE IF IsWhole(b) THEN S(Append(r2, (b \div Unit) * a))
                          ELSE Unm(m)
-       [] op = "div"  -> IF a = 0 \/ ~IsWhole(a) THEN Unm(m)
-                         ELSE LET k == a \div Unit IN
-                              IF b % Abs(k) # 0 THEN Unm(m)
-                              ELSE S(Append(r2, Sgn(k) * (b \div Abs(k))))
+       \* div: exact quotients are numbers like any other.  A quotient that is not a 16.16 number is
+       \* modelled for what it is used for here -- an operand of a path operator, where it counts
+       \* rounded to 16.16, halves away from zero -- and only for |b| < 1/2 (32-bit integers of TLC):
+       \* the rounded value is pushed and the stack marked inexact; until a path operator has taken
+       \* the operands nothing else may touch them (status unmodelled).
+       [] op = "div"  -> IF a = 0 THEN Unm(m)
+                         ELSE IF IsWhole(a) /\ b % Abs(a \div Unit) = 0
+                           THEN S(Append(r2, Sgn(a) * (b \div Abs(a \div Unit))))
+                         ELSE IF Unit > 1 /\ Abs(b) <= 32767
+                           THEN [m EXCEPT !.stack = Append(r2, RoundHA(Sgn(a) * b * Unit, Abs(a))), !.inex = TRUE]
+                         ELSE Unm(m)
        [] op = "sqrt" -> IF a < 0 \/ ~IsWhole(a) THEN Unm(m)
                          ELSE LET q == a \div Unit
                                   R == {r \in 0..200 : r * r = q} IN
@@ -206,6 +221,9 @@ Push(m, v) == IF Len(m.stack) >= MaxStack THEN Err(m) ELSE [m EXCEPT !.stack = A
 
 DoOp(m, t) ==
   LET s == m.stack  n == Len(s)  op == t.op IN
+  \* an inexact quotient may only become a path operand (not a width, a stem, an arithmetic operand)
+  IF m.inex /\ (op \notin MoveOps \cup DrawOps
+                \/ (op \in MoveOps /\ ~m.wset /\ n = (IF op = "rmoveto" THEN 3 ELSE 2))) THEN Unm(m) ELSE
   CASE op \in MoveOps ->
          LET need == IF op = "rmoveto" THEN 2 ELSE 1
              hasW == ~m.wset /\ n = need + 1
@@ -215,13 +233,13 @@ DoOp(m, t) ==
                      dy == IF op = "rmoveto" THEN a[2] ELSE IF op = "vmoveto" THEN a[1] ELSE 0
                  IN IF Abs(m.x + dx) > MaxPos \/ Abs(m.y + dy) > MaxPos THEN Unm(m)
                     ELSE [m EXCEPT !.stack = <<>>, !.wset = TRUE, !.w = IF hasW THEN <<s[1]>> ELSE @,
-                                   !.x = @ + dx, !.y = @ + dy, !.moved = TRUE,
+                                   !.x = @ + dx, !.y = @ + dy, !.moved = TRUE, !.inex = FALSE,
                                    !.path = Append(@, <<"m", m.x + dx, m.y + dy>>)]
     [] op \in DrawOps ->
          IF ~m.moved \/ ~Arity(op, n) THEN Err(m)
          ELSE LET r == ApplySegs(m.x, m.y, Segs(op, s)) IN
               IF ~r.ok THEN Unm(m)
-              ELSE [m EXCEPT !.stack = <<>>, !.x = r.px, !.y = r.py, !.path = @ \o r.out]
+              ELSE [m EXCEPT !.stack = <<>>, !.x = r.px, !.y = r.py, !.path = @ \o r.out, !.inex = FALSE]
     [] op \in StemOps ->
          LET hasW == ~m.wset /\ n % 2 = 1
              a    == IF hasW THEN Tail(s) ELSE s
@@ -245,9 +263,12 @@ DoOp(m, t) ==
             ELSE [m EXCEPT !.stack = <<>>, !.wset = TRUE, !.w = IF hasW THEN <<s[1]>> ELSE @,
                            !.stage = 2, !.vs = vs2,
                            !.path = Append(@, <<IF op = "hintmask" THEN "hm" ELSE "cm">> \o t.mask)]
+    \* endchar takes no operand -- or the four operands adx ady bchar achar of the deprecated
+    \* accented-character form (TN5177 appendix C).  The width, if any, comes first: 1 or 5 operands.
+    \* The composition of the two named glyphs is outside this model: the glyph's own outline stands.
     [] op = "endchar" ->
-         LET hasW == ~m.wset /\ n = 1 IN
-         IF ~(n = 0 \/ hasW) THEN Err(m)
+         LET hasW == ~m.wset /\ n \in {1, 5} IN
+         IF ~(n \in {0, 4} \/ hasW) THEN Err(m)
          ELSE [m EXCEPT !.stack = <<>>, !.wset = TRUE, !.w = IF hasW THEN <<s[1]>> ELSE @, !.st = "done"]
     [] op \in ArithOps -> DoArith(m, op)
     [] OTHER -> Err(m)       \* reserved operators; callsubr/return are resolved by the caller
